@@ -613,6 +613,68 @@ def run_equiv(case):
 
 # ---------------------------------------------------------------------------
 
+def run_huge(case):
+    """A grid of more than 65536 cells (65600 x 1 x 1 and 257 x 256 x 1, periodic) and its graph: index <-> coordinates at both ends,
+    and the neighbour relation of grid and graph on pairs around every 2^16 boundary, the wrap-around pair, and pairs whose packed
+    16-bit indices would collide."""
+    use_repo()
+    import strengths as st
+    sd, idx = case["seed"], case["idx"]
+    r = gen.rng_for(sd, "C15huge", idx)
+    w, h, d = [(65600, 1, 1), (257, 256, 1), (1, 65700, 1)][idx % 3]
+    bc = {"x": "periodical", "y": "periodical", "z": "reflecting"}
+    grid = st.RDGridSpace(w=w, h=h, d=d, boundary_conditions=bc)
+    n = w * h * d
+    sp = {"type": "grid", "w": w, "h": h, "d": d, "bc": bc}
+    bad, counts = [], {"huge_grids": 1}
+    from strengths import coarsegrain
+    graph = coarsegrain.grid_to_graph(grid)
+    if graph.size() != n:
+        bad.append({"what": "huge grid: the graph does not have one node per cell", "cells": n, "nodes": graph.size(), "case": case})
+        return {"bad": bad, "counts": counts, "key": None}
+
+    def nbrs(i):
+        x, y, z = ref.grid_coords(sp, i)
+        out = set()
+        for ax, (dx, dy, dz) in (("x", (1, 0, 0)), ("x", (-1, 0, 0)), ("y", (0, 1, 0)), ("y", (0, -1, 0))):
+            xn, yn = x + dx, y + dy
+            if bc[ax] == "periodical":
+                xn, yn = xn % w, yn % h
+            if 0 <= xn < w and 0 <= yn < h:
+                j = ref.grid_index(sp, xn, yn, z)
+                if j != i:
+                    out.add(j)
+        return out
+    probes = {0, 1, 2, 63, 65535, 65536, 65537, 65538, n - 1, n - 2, 131071 % n, 65599 % n} | {r.randrange(n) for _ in range(20)}
+    pairs = set()
+    for i in probes:
+        for j in list(nbrs(i)) + [(i + 65536) % n, (i + 65538) % n, (i ^ 65536) % n, r.randrange(n), (i * 65536 + 1) % n]:
+            if i != j:
+                pairs.add((i, j))
+    for i, j in sorted(pairs):
+        want = j in nbrs(i)
+        counts["huge_pair_checks"] = counts.get("huge_pair_checks", 0) + 1
+        got = {"grid.are_neighbors": bool(grid.are_neighbors(i, j)), "graph.are_neighbors": bool(graph.are_neighbors(i, j)),
+               "graph.get_edge": graph.get_edge(i, j) is not None}
+        e = graph.get_edge(i, j)
+        if e is not None and {int(e.i), int(e.j)} != {i, j}:
+            bad.append({"what": "huge grid: get_edge(i, j) returned an edge between other nodes", "i": i, "j": j, "edge": [int(e.i), int(e.j)], "grid": [w, h, d], "case": case})
+            break
+        wrong = [k_ for k_, v_ in got.items() if v_ != want]
+        if wrong:
+            bad.append({"what": "huge grid: neighbour relation differs from the grid's geometry", "i": i, "j": j, "expected_neighbours": want, "wrong": wrong,
+                        "grid": [w, h, d], "case": case})
+            break
+    for i in sorted(probes):
+        c_ = tuple(grid.get_cell_coordinates(i))
+        x, y, z = ref.grid_coords(sp, i)
+        counts["huge_index_checks"] = counts.get("huge_index_checks", 0) + 1
+        if tuple(int(v) for v in c_) != (x, y, z) or grid.get_cell_index((x, y, z)) != i:
+            bad.append({"what": "huge grid: index <-> coordinates", "index": i, "got": [int(v) for v in c_], "expected": [x, y, z], "case": case})
+            break
+    return {"bad": bad[:3], "counts": counts, "key": chash(["huge", sd, idx]), "nontrivial": True, "sample": {"seed": sd, "idx": idx, "grid": [w, h, d]}}
+
+
 def replay(path):
     w = json.load(open(path))["witness"]
     c = w["case"]
@@ -721,6 +783,9 @@ def main():
                                 "(d) and (g) are samples" % (len(grids), L))
     run.note("grids", len(grids))
     run.note("worst_relative_grid_graph_trajectory_difference", worst)
+    from vf.sandbox import run_extra as _rxh
+    _rxh(run, "vf.checks.c15:run_huge", [{"seed": seed(), "idx": _i} for _i in range(6 if tier() == "thorough" else 2)], cpu_budget=900)
+    run.require("huge_pair_checks")
     return run.finish()
 
 
